@@ -806,7 +806,7 @@ func (s *State) extendFunctionEnv(
 		// By definition function parameters are local copies, deref argument values:
 		pval := object.Value(args[paramIdx])
 		needVariable := true
-		if !s.NoReg && pval.Type() == object.INTEGER && env.HasRegisters() {
+		if !s.NoReg && pval.Type() == object.INTEGER && env.HasRegisters() && !object.Constant(param.Value().Literal()) {
 			// We will release all these registers just by returning/dropping the env.
 			reg, nbody, ok := setupRegister(env, param.Value().Literal(), pval.(object.Integer).Value, newBody)
 			if ok {
@@ -940,7 +940,8 @@ func (s *State) evalForInteger(fe *ast.ForExpression, start *int64, end int64, n
 	var newBody ast.Node
 	var register object.Register
 	newBody = fe.Body
-	useReg := name != "" && !s.NoReg && s.env.HasRegisters()
+	// A constant name is never a register: binding it must go through the constant check.
+	useReg := name != "" && !s.NoReg && s.env.HasRegisters() && !object.Constant(name)
 	if useReg {
 		var ok bool
 		register, newBody, ok = setupRegister(s.env, name, int64(startValue), fe.Body)
@@ -958,7 +959,9 @@ func (s *State) evalForInteger(fe *ast.ForExpression, start *int64, end int64, n
 	}
 	for i := startValue; i < endValue; i++ {
 		if name != "" && !useReg {
-			s.env.Set(name, object.Integer{Value: int64(i)})
+			if oerr := s.env.Set(name, object.Integer{Value: int64(i)}); oerr.Type() == object.ERROR {
+				return oerr
+			}
 		}
 		if ptr != nil {
 			*ptr = int64(i)
@@ -1036,7 +1039,9 @@ func (s *State) evalForList(fe *ast.ForExpression, list object.Object, name stri
 		if v == nil {
 			return s.NewError("for list element is nil")
 		}
-		s.env.Set(name, v)
+		if oerr := s.env.Set(name, v); oerr.Type() == object.ERROR {
+			return oerr
+		}
 		// Copy pasta from evalForInteger. hard to share control flow.
 		nextEval := s.evalInternal(fe.Body)
 		switch nextEval.Type() {
